@@ -17,12 +17,12 @@ def check(run, ctx) -> None:
     # F64 (a tag named like one of APIClient's own members) is repaired: its classes (property-shadowed-by-method, tag-client-unreachable,
     # property-named-like-instance-attribute, api-client-construction-fails, private-attr-collision, duplicate-property-name,
     # mock-client-self-argument) map to no finding - a recurrence is a violation.  The `-nonascii` classes (collisions between two tag
-    # clients that only non-ASCII tags produce) are reported as a new finding by the F64 work package, not listed yet ("-unlisted").
+    # clients that only non-ASCII tags produce) are reported as a new finding by the F64 work package, listed as F68.
     g.run_oracle(run, ctx, g.Informational(known), "vf.corr.client", "client.py / mock_client.py skeletons on the real ClientVisitor / MocksEmitter",
                  {k: (v if v in ['F23'] or v.startswith("-") else '-' + v) for k, v in {"mock-groups-by-first-raw-tag": "F23", "mock-client-props-order": "F23", "mock-client-props-differ": "F23", "mock-tag-case-variants-collide": "F23",
                   "mock-client-duplicate-argument": "F23", "mock-client-empty-init": "F31", "property-name-not-identifier": "F29", "client-syntax-error": "F29",
-                  "mock-client-syntax-error": "F29", "duplicate-property-name-nonascii": "-unlisted", "private-attr-collision-nonascii": "-unlisted",
-                  "api-client-construction-fails-nonascii": "-unlisted", "tag-client-unreachable-nonascii": "-unlisted"}.items()}, quick=0.5, thorough=4.0)
+                  "mock-client-syntax-error": "F29", "duplicate-property-name-nonascii": "F68", "private-attr-collision-nonascii": "F68",
+                  "api-client-construction-fails-nonascii": "F68", "tag-client-unreachable-nonascii": "F68"}.items()}, quick=0.5, thorough=4.0)
     known.report_unreplayed()
 
 
